@@ -663,7 +663,7 @@ def gen_rates(rnd, dyn='sto'):
 def gen_monitored(rnd, dyn=None):
     """C12: a shipped model observed by a Monitor (and NetworkStatistics) in a sequence"""
     base = gen_shipped(rnd, dyn=dyn, oracles=('clock', 'member', 'loci'))
-    delta = rnd.choice([0.25, 0.5, 1.0, 1.5, 2.0, 0.75, 3.0])
+    delta = rnd.choice([0.25, 0.5, 1.0, 1.5, 2.0, 0.75, 3.0, 0.1, 0.3, 1 / 3, 0.7])     # (also intervals that are not binary fractions: sums round)
     procs = base['procs'] + [dict(cls='Monitor', name=None, params={Monitor.DELTA: delta})]
     if rnd.random() < 0.5: procs.append(dict(cls='NetworkStatistics', name=None, params={}))
     if rnd.random() < 0.3: procs = [procs[1], procs[0]] + procs[2:]
